@@ -996,8 +996,11 @@ class RZILTransformer(Transformer):
             raise NotImplementedError(
                 f"For loops with {len(items)} elements is not supported yet."
             )
+        # A body without brackets, which is a hybrid with an unused value ("fcn(i);"),
+        # must be executed before the step. Not after it like the hybrid of the step ("i++").
+        body = [self.block_item([stmt]) for stmt in flatten_list(items[4])]
         compound = self.chk_hybrid_dep(
-            self.add_op(Sequence(f"seq", flatten_list(items[4]) + [items[3]])),
+            self.add_op(Sequence(f"seq", body + [items[3]])),
             HybridSeqOrder.SEQ_THEN_HYB,
         )
         return self.chk_hybrid_dep(
